@@ -804,6 +804,7 @@ package stack
 //@   modifies nothing
 //@   ensures [pathJoin2 C18] len(s) == 2 ==> result == s[0] + "/" + s[1]
 //@   ensures [pathJoin3 C18] len(s) == 3 ==> result == s[0] + "/" + s[1] + "/" + s[2]
+//@   ensures [pathJoinIsJoin C18] result == joinPath(s)
 
 //@ func (*Call).updateLocations
 //@   option det=several roots can match; the longest one wins, two matching roots of the same length are the same root (lemmas longestGopathRootUnique, longestModRootUnique), and every written field is a function of that root
@@ -966,10 +967,16 @@ package stack
 //@ func splitPath
 //@   modifies nothing
 //@ func isFile
+//@   option assumed
 //@   modifies nothing
+//@   ensures result <==> fileExists(p)
+//@ spec noinline tailJoin(parts []string, j int) string = joinPath(parts[j:])
+//@ spec noinline headJoin(parts []string, i int) string = joinPath(parts[:i])
 //@ func isRootedIn
 //@   modifies nothing
+//@   ensures [rootedInFirstHit C18] (result == "" && (forall j :: 1 <= j && j < len(parts) ==> !fileExists(root + "/" + tailJoin(parts, j)))) || (exists i :: 1 <= i && i < len(parts) && fileExists(root + "/" + tailJoin(parts, i)) && result == headJoin(parts, i) && (forall j :: 1 <= j && j < i ==> !fileExists(root + "/" + tailJoin(parts, j))))
 //@   loop 0: invariant 1 <= i
+//@   loop 0: invariant forall j :: 1 <= j && j < i ==> !fileExists(root + "/" + tailJoin(parts, j))
 //@   loop 0: decreases len(parts) - i
 //@ func (*gomodCache).isGoModule
 //@   requires g != nil && *g != nil
